@@ -1,5 +1,5 @@
 From Coq Require Import Extraction ExtrOcamlBasic NArith ZArith List.
-From MV Require Import Base.PyStr Base.Res Cfg.StrOps Cfg.Cfg Cfg.CfgSpec Gen.Config.
+From MV Require Import Base.PyStr Base.Res Cfg.StrOps Cfg.Cfg Cfg.CfgSpec Gen.Config Cfg.MdParserPrelude Gen.MdParserSrc.
 Extraction Language OCaml.
 Extraction "model.ml" N.succ N.to_nat Z.of_N validate mk_config copy merge_file_level merge_file_level_gen
-  docutils_config decode_options sphinx_config decode optparse_kind fields known_extensions optparse_rules cfg_get unused_rule_indices rule_index copy_o shares_field.
+  docutils_config decode_options sphinx_config decode optparse_kind fields known_extensions optparse_rules cfg_get unused_rule_indices rule_index copy_o shares_field create_md_parser_src.
